@@ -443,7 +443,15 @@ GAPS:
     (iii) the argument checks of `build` in source order as iffs on arbitrary objects (conflict authority-vs-parts,
     port type, port range, port without host, query with query_string, a None argument), each raising its exception
     whatever the other arguments are; the three conflicts as one iff, always ValueError; every ValueError is a
-    conflict, the port range or value-level; `build` has no "scheme requires a host" check;
+    conflict, the port range or value-level; `build` has no "scheme requires a host" check.  UPDATED after library fix
+    7970b83 (the two port-related conflict checks of `URL.build` now test `port is not None` instead of the truthiness of
+    `port`): in C19_headline_dyn_build_argument_checks / _conflicts the "a port is given" disjunct of the
+    authority-vs-parts conflict reads `isNoneObj o.port = false` (was `truthy o.port = true`) and "port without host"
+    reads `∃ i, o.port = .int i ∧ 0 ≤ i ∧ i ≤ 65535` (was `0 < i`) — `URL.build(port=0)` and
+    `URL.build(authority='a', port=0)` are ValueErrors now, like every other given port; the typed `build`
+    (YarlModel/Url.lean), YarlModel/DynBuild.lean and C19_dynBuild_checks / C19_dynBuild_conflict_iff were changed
+    accordingly, so for the conflict iff it is no longer true that "only truthiness matters" (for `port`, being None
+    or not matters);
     (iv) `without_query_params(*names)`: the only failure is TypeError ⇔ some name is unhashable, hashable non-str names
     are ignored, str names give the typed function;
     (v) the flags act through `bool(o)` (the entry point of Dyn.lean at `truthy o`), no exception comes from a flag.
